@@ -247,6 +247,11 @@ class ConstEval:
                 return UNKNOWN
         if name == 'range' and args and not _unk(*args):
             return list(range(*args))
+        if name == 'str.maketrans' and 1 <= len(args) <= 3 and not _unk(*args):
+            try:
+                return str.maketrans(*args)
+            except (TypeError, ValueError):
+                return UNKNOWN
         if name and name.startswith('math.') and not _unk(*args):
             fn = getattr(math, name[5:], None)
             if fn in (math.sqrt, math.pow, math.floor, math.radians, math.ceil):
@@ -267,7 +272,7 @@ class ConstEval:
             if isinstance(base, str) and meth in (
                     'strip', 'lstrip', 'rstrip', 'startswith', 'endswith', 'replace', 'split',
                     'ljust', 'rjust', 'zfill', 'count', 'find', 'format', 'join', 'title',
-                    'capitalize') and not _unk(*args) and not node.keywords:
+                    'capitalize', 'translate') and not _unk(*args) and not node.keywords:
                 try:
                     return getattr(base, meth)(*args)
                 except (TypeError, ValueError, IndexError, KeyError):
